@@ -57,8 +57,11 @@ def gen_one(r, i, tier):
         spec = {"k": "Count"}        # an isolated Count: vectorised through Container.fillnumpy
     c17.decorate(r, spec, "dict")
     for s_ in gen.walk(spec):
-        if "q" in s_ and s_["q"].get("form") == "def" and r.random() < 0.6:
+        if "q" in s_ and s_["q"].get("form") == "def" and r.random() < 0.6 and s_["q"]["e"][0] != "vec":
             s_["q"]["form"] = "defg"          # a def that reads its constants from module globals
+            if r.random() < 0.5:
+                # ... one of them falsy (0.0): it must travel with the pickled function all the same
+                s_["q"]["e"] = ["+", s_["q"]["e"], ["c", 0.0]]
     try:
         hgm.build(spec)
     except Exception:  # noqa: BLE001
